@@ -85,7 +85,12 @@ def pool(h, seed, small=10, mate=6, rep=4, game=8, term=0):
 def plan(h, sessions):
     """Attach to every go step the slices the engine's own parse_go_command / calculate_time_slice give (both colours)
     and the token list; TraceUci picks the colour from the tracked position and checks the contract."""
-    lines = sorted({st["line"] for steps in sessions for st in steps if st["do"] in ("go", "go_nowait")})
+    lines = {st["line"] for steps in sessions for st in steps if st["do"] in ("go", "go_nowait")}
+    for steps in sessions:
+        for st in steps:
+            if st["do"] == "game":
+                lines |= set(st["go"] if isinstance(st["go"], list) else [st["go"]])
+    lines = sorted(lines)
     if not lines:
         return
     d = os.path.join(vcommon.BUILD, "plan-%d" % os.getpid())
@@ -109,6 +114,12 @@ def plan(h, sessions):
     shutil.rmtree(d, ignore_errors=True)
     for steps in sessions:
         for st in steps:
+            if st["do"] == "game":
+                # (game steps only use small, well-formed clocks)
+                st["go_extra"] = {gl: {"toks": table[gl]["toks"], "slice_w": table[gl].get("slice_w", 0), "slice_b": table[gl].get("slice_b", 0),
+                                       **({"notime": True} if table[gl].get("panic") else {})}
+                                  for gl in (st["go"] if isinstance(st["go"], list) else [st["go"]])}
+                st["wait_ms"] = min(max([max(table[gl].get("slice_w", 0), table[gl].get("slice_b", 0)) for gl in st["go_extra"]] + [0]), 6000) + 4000
             if st["do"] in ("go", "go_nowait"):
                 e = table[st["line"]]
                 ex = st.setdefault("extra", {})
@@ -288,6 +299,10 @@ def c03(tier, replay):
         for _ in range(4):
             steps.append({"do": "go", "line": rng.choice(GO_ZERO + GO_ZERO + GO_SMALL)})
         sessions.append(steps)
+    # GUI-style games: position <game so far> / go / reply / ... in one process
+    games, _ = game_sessions(rng, live, 4 if q else 40, "c3g", plies=6)
+    sessions += games
+    run.cov["gui_style_games"] = len(games)
     # tiny slices (1-30 ms): the deadline falls into the first root move / the polling sleep
     for _ in range(10 if q else 100):
         steps = []
@@ -568,6 +583,37 @@ def c09(tier, replay):
     return run.finish()
 
 
+GAME_GO = ["go", "go wtime 250 btime 250 movestogo 1", "go wtime 0 btime 0", "go wtime 220 btime 220 movestogo 1"]
+
+
+def game_sessions(rng, live, n, prefix, plies=5, golines=None):
+    """n sessions that play a GUI-style game each (see uci_driver `game`), starting from pool positions"""
+    games, shard = [], []
+    for gi in range(n):
+        cmd = rng.choice(live) if gi % 3 else "position startpos"
+        parts = cmd.split(" moves ")
+        gl = list(golines or GAME_GO)
+        rng.shuffle(gl)
+        games.append([{"do": "game", "start": parts[0], "premoves": parts[1].split() if len(parts) == 2 else [], "plies": plies,
+                       "go": gl, "opp": "pv" if gi % 2 == 0 else "engine", "probe_prefix": "%s%d" % (prefix, gi)}])
+        shard.append(gi)
+    return games, shard
+
+
+def fresh_probes(glogs, gshard):
+    """every (position, go) request of the recorded games as a session of its own (fresh process), same probe id"""
+    fresh, shard = [], []
+    for evs, sh in zip(glogs, gshard):
+        cur = None
+        for e in evs:
+            if e["ev"] == "in" and "position" in e:
+                cur = e["line"]
+            elif e["ev"] == "in" and e.get("go") and e.get("probe") and cur:
+                fresh.append([{"do": "send", "line": cur}, {"do": "go", "line": e["line"], "extra": {"probe": e["probe"], "timed": bool(e.get("timed"))}}])
+                shard.append(sh)
+    return fresh, shard
+
+
 def c16(tier, replay):
     run = mk("C16", tier, replay)
     if replay:
@@ -627,6 +673,21 @@ def c16(tier, replay):
             shard.append(nprobe + j)
     plan(h, sessions)
     logs = run_sessions(binary, sessions, 6)
+    # GUI-style games (position <game so far> / go / reply / ...; the reply is the one the engine predicted or another
+    # process's move): every go of the game is a probe, asked again of a fresh process afterwards
+    games, gshard = game_sessions(rng, live, 4 if q else 30, "gm")
+    plan(h, games)
+    glogs = run_sessions(binary, games, 4)
+    fresh, fshard = fresh_probes(glogs, gshard)
+    plan(h, fresh)
+    flogs = run_sessions(binary, fresh, 6)
+    base = max(shard) + 1
+    sessions += games + fresh
+    logs += glogs + flogs
+    shard += [base + x for x in gshard + fshard]
+    run.cov["gui_style_games"] = {"games": len(games), "go_commands_probed_again_fresh": len(fresh)}
+    if len(fresh) < 2 * len(games):
+        raise ToolError("coverage hole: the GUI-style games did not get going")
     sample_session(run, sessions[2], logs[2])
     totals = validate(run, "C16", "probes", logs, shard_of=lambda i: shard[i], scripts=sessions, binary=binary)
     if totals.get("probes", 0) < nprobe * 3:
@@ -635,7 +696,8 @@ def c16(tier, replay):
     run.cov["probe_runs"] = totals.get("probes", 0)
     model_walleye(run, tier)
     run.cov["rule"] = ("each probe request (position X + go) runs in a fresh process, twice in a row, and after prefixes: another game with searches, the same game "
-                       "sent move by move with searches, ucinewgame / setoption / ignored lines / a finished game, a game with a long repetition history; TraceUci "
+                       "sent move by move with searches, ucinewgame / setoption / ignored lines / a finished game, a game with a long repetition history; GUI-style games "
+                       "(position <game so far> / go / the reply the engine predicted or another process's move / ...) whose every go is asked again of a fresh process; TraceUci "
                        "keeps memo[request] and requires the identical bestmove under a zero allowance and prefix-related (depth, nodes, score, first pv move) "
                        "sequences under a timed one; Walleye.tla: after Position the board and record are functions of the command (RecordFresh)")
     return run.finish()
@@ -772,6 +834,12 @@ def position_dumps(run, pid, tier):
                 steps.append({"do": "go", "line": rng.choice(GO_ZERO)})
         steps.append({"do": "isready"})
         sessions.append(steps)
+    # GUI-style games: the record and the board after EVERY position command of a game that grows by the engine's own
+    # move and a reply, and the record handed to the search at every go
+    games, _ = game_sessions(rng, live + reps[:2], 3 if q else 25, "pdg", plies=6)
+    sessions += [g + [{"do": "isready"}] for g in games]
+    run.cov["gui_style_games"] = len(games)
+    for i in range(len(sessions)):
         traces.append(os.path.join(d, "hook%03d.ndjson" % i))
     plan(h, sessions)
     logs = run_sessions(binary, sessions, 8, traces)
